@@ -25,7 +25,6 @@ from ..core import AnalysisError, ClassInfo, Ctx, FuncInfo, body_without_docstri
 from ..decide import A, f_eval, path_formula, paths_of, valuations
 from ..fold import Sym
 from ..peg import Grammar
-from .c03 import Automaton
 
 
 def _handlers_for(ctx: Ctx, fn: FuncInfo, cls_name: str) -> List[Tuple[ast.Try, ast.ExceptHandler]]:
@@ -59,79 +58,76 @@ def _handler_keywords(h: ast.ExceptHandler) -> List[Dict[str, str]]:
 
 
 def rule_r1(ctx: Ctx) -> None:
-    repo = ctx.repo
-    ctx.rule("C17.R1", "location injection: every Error handler on the propagation path stamps its own context and re-raises the same object; the setter only fills unknown fields", min_instances=4)
-    sites = [("_parser.parse", "line"), ("_dsdl_definition.DSDLDefinition.read", "own path"), ("_namespace_reader._read_definitions", "read path")]
-    for short, kind in sites:
-        fn = ctx.func(short)
-        hs = _handlers_for(ctx, fn, "Error")
-        good = False
-        detail: List[Any] = []
-        for tr, h in hs:
-            if not h.name:
-                continue
-            kws = _handler_keywords(h)
-            rer = [r for r in ast.walk(ast.Module(body=h.body, type_ignores=[])) if isinstance(r, ast.Raise)]
-            same = bool(rer) and all(r.exc is None or norm(r.exc) == h.name for r in rer)
-            body_calls = [c for s_ in tr.body for c in ast.walk(s_) if isinstance(c, ast.Call)]
-            if kind == "line":
-                # the parse tree is visited inside the try; the line stamped is the visitor's running counter
-                visitors = [norm(c.func.value) for c in body_calls if isinstance(c.func, ast.Attribute) and c.func.attr == "visit"]
-                prot = len(set(visitors)) == 1
-                want = {"line": ["%s.current_line_number" % visitors[0]]} if prot else {"line": ["?"]}
-            elif kind == "own path":
-                prot = any((isinstance(c.func, ast.Attribute) and c.func.attr in ("parse", "finalize")) or (dotted(c.func) or "").endswith("parse") for c in body_calls)
-                want = {"path": ["self.file_path", "self._file_path"]}
-            else:
-                readers = [norm(c.func.value) for c in body_calls if isinstance(c.func, ast.Attribute) and c.func.attr == "read"]
-                prot = len(set(readers)) == 1
-                want = {"path": ["%s.file_path" % readers[0]]} if prot else {"path": ["?"]}
-            # it must be the first handler that matches Error (no broader handler before it)
-            first = tr.handlers.index(h) == 0
-            detail.append({"keywords": kws, "reraises_same": same, "protects": prot, "first": first, "expected": want})
-            if len(kws) == 1 and set(kws[0]) == set(want) and all(kws[0][k] in v for k, v in want.items()) and same and prot and first:
-                good = True
-        ctx.check(good, fn.short, "except Error as ex: ex.set_error_location_if_unknown(<%s of what is being processed>); raise ex" % ("line" if kind == "line" else "path"), "the handler stamps the context of the file/line being processed and re-raises the same exception", fn.where(), detail)
-    # the setter
+    """location injection, observed: on the repository's own Error class and on the reading pipeline over abstract worlds"""
+    from ..absint import AExc, APath, Raised, construct, ctor_hook
+    from ..fold import Folder, Unfoldable
+    from . import reader_common as R
+
+    ctx.rule("C17.R1", "location injection: every Error handler on the propagation path stamps its own context and re-raises the same object; the setter only fills unknown fields", min_instances=3)
     err = ctx.cls("_error.Error")
-    st = err.methods.get("set_error_location_if_unknown")
+    st = ctx.repo.lookup_method(err, "set_error_location_if_unknown")
     if st is None:
         raise AnalysisError("anchor Error.set_error_location_if_unknown missing")
-    paths = paths_of(st.node)
-
-    def atom(e: Any) -> Any:
-        s = norm(e)
-        m = {"self._path": "HAS_PATH", "path": "ARG_PATH", "self._line": "HAS_LINE", "line": "ARG_LINE", "self.path": "HAS_PATH", "self.line": "HAS_LINE"}
-        if s in m:
-            return A(m[s])
-        if s.endswith(" is None") and s[:-8] in m:
-            from ..decide import f_not
-
-            return f_not(A(m[s[:-8]]))
-        if s.endswith(" is not None") and s[:-12] in m:
-            return A(m[s[:-12]])
-        raise AnalysisError("set_error_location_if_unknown: condition outside the abstraction: %s" % s)
-
+    hook = ctor_hook(ctx, None)
     bad = []
-    for v in valuations(["HAS_PATH", "ARG_PATH", "HAS_LINE", "ARG_LINE"]):
-        taken = [p for p in paths if f_eval(path_formula(p, atom), v)]
-        ctx.count()
-        if len(taken) != 1:
-            raise AnalysisError("set_error_location_if_unknown: %d feasible paths" % len(taken))
-        env = taken[0].env
-        wrote_path = "self._path" in env
-        wrote_line = "self._line" in env
-        if wrote_path != ((not v["HAS_PATH"]) and v["ARG_PATH"]) or wrote_line != ((not v["HAS_LINE"]) and v["ARG_LINE"]):
-            bad.append({"state": v, "writes_path": wrote_path, "writes_line": wrote_line})
-        if wrote_path and norm(env["self._path"]) != "path" or wrote_line and norm(env["self._line"]) != "line":
-            bad.append({"state": v, "stores": {k: norm(x) for k, x in env.items()}})
-    ctx.check(not bad, st.short, "fills unknown path / line only", "a location that is already known (set closer to the fault) is never overwritten", st.where(), bad[:4])
-    # accessors
-    from ..regions import trivial_property_expr
+    P0, P1 = APath("/known/A.1.0.dsdl"), APath("/given/B.1.0.dsdl")
+    for p0 in (None, P0):
+        for l0 in (None, 11):
+            for ap in (None, P1):
+                for al in (None, 22):
+                    try:
+                        ex = construct(ctx, err, "text", p0, l0, hook=hook)
+                        f = Folder({"e": ex, "p": ap, "l": al}, ctx.repo, err.module, err, hook)
+                        f.fold(ast.parse("e.set_error_location_if_unknown(path=p, line=l)", mode="eval").body)
+                        got = (f.fold(ast.parse("e.path", mode="eval").body), f.fold(ast.parse("e.line", mode="eval").body))
+                    except (Raised, Unfoldable) as exn:
+                        raise AnalysisError("Error.set_error_location_if_unknown: cannot evaluate: %s" % exn)
+                    ctx.count()
+                    want = (p0 if p0 is not None else ap, l0 if l0 is not None else al)
+                    if got != want:
+                        bad.append({"known": (str(p0), l0), "given": (str(ap), al), "after": (str(got[0]), got[1]), "expected": (str(want[0]), want[1])})
+    ctx.check(not bad, st.short, "fills unknown path / line only (16 states)", "a location that is already known (set closer to the fault) is never overwritten", st.where(), bad[:4])
 
-    for prop, want_e in (("path", "self._path"), ("line", "self._line")):
-        e = trivial_property_expr(repo, err, prop)
-        ctx.check(e is not None and norm(e) == want_e, err.short + "." + prop, norm(e) if e is not None else "?", "accessor returns the stored location", err.module.relpath, nontrivial=False)
+    # DSDLDefinition.read: a fault of the definition itself (no location yet) leaves with the definition's own path, same object
+    rd = ctx.func("_dsdl_definition.DSDLDefinition.read")
+    own = R.own_definition(ctx, "ns.sub.T", 1, 2)
+    o = R.read_own(ctx, own, [], parse_fails=1)
+    ctx.count()
+    exc = o.get("exc")
+    good = o["raised"] == "DSDLSyntaxError" and exc is not None and str(getattr(exc, "path", None)) == "/w/ns/sub/T.1.2.dsdl"
+    ctx.check(good, rd.short, "a fault of the definition leaves with the definition's own path", "the handler stamps the context of the file being processed and re-raises the same exception", rd.where(), {"raised": o["raised"], "path": str(getattr(exc, "path", None))})
+
+    # the namespace reader: the same for every target, and an error that already names a file keeps it
+    nsr = ctx.func("_namespace_reader.read_definitions")
+    bad = []
+    for preset in (None, "/deps/Other.1.0.dsdl"):
+        w = R.World()
+        B = R.ADef(w, "ns.B", 1, 0, fail="UndefinedDataTypeError")
+        A = R.ADef(w, "ns.A", 1, 0)
+        out = None
+        for targets in ([B], [A, B]):
+            for d in w.defs:
+                d.__dict__["composite_type"] = None
+            # the fault is planted in B; when it already names a file (it came from a dependency of B), that file wins
+            orig_read = B.read
+
+            def failing(*a: Any, _orig: Any = orig_read, **k: Any) -> Any:
+                try:
+                    return _orig(*a, **k)
+                except Raised as r:
+                    if preset is not None:
+                        r.exc.path = APath(preset)  # type: ignore
+                    raise
+
+            B.__dict__["read"] = failing
+            out = R.run_reader(ctx, targets, [A, B])
+            ctx.count()
+            exc = out.get("exc")
+            want_path = preset or str(B.file_path)
+            if out["raised"] != "UndefinedDataTypeError" or exc is None or exc is not B.__dict__.get("raised_exc") or str(getattr(exc, "path", None)) != want_path:
+                bad.append({"targets": [t.label for t in targets], "fault names the file": preset, "left as": out["raised"], "path": str(getattr(exc, "path", None)), "same object": exc is B.__dict__.get("raised_exc"), "expected path": want_path})
+    ctx.check(not bad, nsr.short, "a fault in a target leaves with the target's path (or the file it already names), unchanged otherwise", "the handler stamps the context of the file being processed and re-raises the same exception", nsr.where(), bad[:3])
+    from ..regions import trivial_property_expr  # noqa: F401
 
 
 class _Tok(Sym):
@@ -152,7 +148,7 @@ class _Tok(Sym):
 
 def rule_r7(ctx: Ctx) -> None:
     """composition of the location stamps along the propagation path, on the repository's own Error class"""
-    from ..absint import Evaluator, Raised, construct
+    from ..absint import Evaluator, Raised, construct, ctor_hook
     from ..fold import Folder, Unfoldable
 
     ctx.rule("C17.R7", "a line is stamped only on an error whose file is not yet known (an error that arrives with the path of another file - a dependency - never gets a line of this file); a path is stamped only when unknown; a known line is never changed", min_instances=4)
@@ -177,17 +173,17 @@ def rule_r7(ctx: Ctx) -> None:
                     continue
                 results = {}
                 for label, (p0, l0) in {"fresh": (None, None), "from another file, no line": (OTHER, None), "from another file, with line": (OTHER, 7), "line known, file not yet": (None, 3)}.items():
-                    ex = construct(ctx, err, "text", p0, l0)
+                    ex = construct(ctx, err, "text", p0, l0, hook=ctor_hook(ctx, None))
                     env: Dict[str, Any] = {h.name: ex}
                     for nm in {x.id for s_ in h.body for x in ast.walk(s_) if isinstance(x, ast.Name)} - {h.name}:
                         env[nm] = _Tok(nm)
                     try:
-                        Evaluator(env, ctx.repo, fn.module, fn.cls, None).run(list(h.body))
+                        Evaluator(env, ctx.repo, fn.module, fn.cls, ctor_hook(ctx, None)).run(list(h.body))
                     except Raised:
                         pass
                     except Unfoldable as exn:
                         raise AnalysisError("%s: cannot evaluate the handler over an abstract error: %s" % (fn.short, exn))
-                    f = Folder({"e": ex}, ctx.repo, err.module, err, None)
+                    f = Folder({"e": ex}, ctx.repo, err.module, err, ctor_hook(ctx, None))
                     results[label] = (f.fold(ast.parse("e.path", mode="eval").body), f.fold(ast.parse("e.line", mode="eval").body))
                     ctx.count()
                 bad = []
@@ -207,52 +203,6 @@ def rule_r7(ctx: Ctx) -> None:
     if n < 4:
         raise AnalysisError("only %d location-stamping handlers found" % n)
 
-
-
-def rule_r2(ctx: Ctx, a: Automaton) -> None:
-    ctx.rule("C17.R2", "a pending attribute is committed on its own line or inside a handler that re-attributes errors to the line captured when it was queued; that line is written exactly where attributes are queued", min_instances=2)
-    bad = [c for c in a.commits if c["age"] > 0 and not (c["protected"] and c["capok"])]
-    ctx.count(len(a.commits))
-    distinct = sorted({(c["where"], c["context"].split(" line=")[1] if " line=" in c["context"] else c["context"]) for c in bad})
-    ctx.check(not bad, "_parser._ParseTreeProcessor._flush_comment", "deferred commits on a later line are re-attributed (%d commit executions explored)" % len(a.commits), "an error raised by the lazily committed attribute must carry the attribute's own line, not the line reached by the parser", "", [{"commit_at": w, "line_shape": c} for w, c in distinct[:4]] + ([{"late_commits_without_a_valid_captured_line": len(bad), "handler_present": any(c["protected"] for c in bad), "captured_line_stale": any(c["protected"] and not c["capok"] for c in bad)}] if bad else []))
-    # the captured line variable: which attribute is used by the relabelling handler, and who writes it
-    pt = a.parser
-    captured: Set[str] = set()
-    for fn in pt.methods.values():
-        for tr in [n for n in walk_no_nested(fn.node) if isinstance(n, ast.Try)]:
-            for h in tr.handlers:
-                for c in ast.walk(ast.Module(body=h.body, type_ignores=[])):
-                    if isinstance(c, ast.Call) and isinstance(c.func, ast.Attribute) and c.func.attr == "set_error_location_if_unknown":
-                        for k in c.keywords:
-                            if k.arg == "line" and norm(k.value).startswith("self.") and "current_line_number" not in norm(k.value):
-                                captured.add(norm(k.value))
-    if not captured:
-        ctx.check(not any(c["age"] > 0 for c in a.commits), pt.short, "no captured line", "no handler re-attributes deferred commits", pt.module.relpath, nontrivial=False)
-        return
-    if len(captured) != 1:
-        raise AnalysisError("several captured-line variables: %s" % sorted(captured))
-    var = captured.pop()
-    writers = {}
-    for name, fn in pt.methods.items():
-        for st in walk_no_nested(fn.node):
-            if isinstance(st, (ast.Assign, ast.AugAssign)):
-                tg = st.targets if isinstance(st, ast.Assign) else [st.target]
-                if any(norm(t) == var for t in tg):
-                    writers[name] = norm(st.value)
-    from ..typestate import Interp
-
-    queueing = sorted(m for m in pt.methods if m.startswith("visit_statement_") and any(e.kind == "QUEUE" for _, eff in Interp(a.pl).run_method(pt, m, (False, False, 0, False)) for e in eff))
-    want_writers = set(queueing) | {"__init__"}
-    from .c03 import may_contain
-
-    multi_owners = [o for o, _ in _multiline_terminals(a.g) if o != "end_of_line"]
-
-    def can_span_lines(visitor: str) -> bool:
-        rule = visitor[len("visit_"):]
-        return rule in a.g.rules and any(may_contain(a.g, a.g.rules[rule], o) for o in multi_owners)
-
-    line_exprs_ok = all(_is_statement_line(ctx, pt, pt.methods[m], writers.get(m, ""), multiline=can_span_lines(m)) for m in queueing)
-    ctx.check(set(writers) == want_writers and line_exprs_ok, pt.short, "%s written by %s" % (var, sorted(writers)), "the line of the pending attribute is recorded by exactly the visitors that queue an attribute, from the statement's own line", pt.module.relpath, {"queueing_visitors": queueing, "writers": writers})
 
 
 def _multiline_terminals(g: Grammar) -> List[Tuple[str, str]]:
@@ -282,300 +232,173 @@ def _multiline_terminals(g: Grammar) -> List[Tuple[str, str]]:
     return out
 
 
-def _is_statement_line(ctx: Ctx, pt: ClassInfo, fn: FuncInfo, expr_text: str, multiline: bool = True) -> bool:
-    """the expression (private helpers expanded, temporaries substituted) denotes the line the statement node begins on"""
-    node_param = fn.params[1] if len(fn.params) > 1 else "node"
-    try:
-        e = ast.parse(expr_text, mode="eval").body
-    except SyntaxError:
-        return False
-    counter = ("self.current_line_number", "self._current_line_number")
-    breaks = ("%s.text.count('\\n')" % node_param,)
-    if norm(e) in counter:
-        return not multiline
-    if isinstance(e, ast.BinOp) and isinstance(e.op, ast.Sub) and norm(e.left) in counter and norm(e.right) in breaks:
-        return True
-    # still a call of a one-expression helper on the node (not expanded because it is public or overridden): look inside
-    if isinstance(e, ast.Call) and isinstance(e.func, ast.Attribute) and norm(e.func.value) == "self" and [norm(x) for x in e.args] == [node_param]:
-        h = ctx.repo.lookup_method(pt, e.func.attr)
-        if h is not None and len(h.params) == 2:
-            rets = [p for p in paths_of(ctx.inl(h)) if p.kind == "return"]
-            if len(rets) == 1:
-                return _is_statement_line(ctx, pt, h, norm(rets[0].value), multiline)
-    return False
+def rule_r3(ctx: Ctx) -> None:
+    """every grammar terminal that can match a line break keeps the line counter in step: its visitor, evaluated on a node
+    whose text holds k line breaks, advances the parser's current line by exactly k (end_of_line: by one)"""
+    from ..absint import Raised
+    from ..fold import Folder, Unfoldable
+    from .parser_common import ParserModel, node
 
-
-def _canonical_calls(ctx: Ctx, fn: FuncInfo, attr: str) -> List[ast.Call]:
-    """calls of `.attr(...)` met on the paths of fn, with helpers expanded and temporaries substituted"""
-    out = []
-    seen = set()
-    for p in paths_of(ctx.inl(fn)):
-        for ev in list(p.events) + ([p.value] if p.value is not None else []):
-            node = ev[2] if isinstance(ev, tuple) and ev[0] == "assign" else ev
-            if not isinstance(node, ast.AST):
-                continue
-            for c in ast.walk(node):
-                if isinstance(c, ast.Call) and isinstance(c.func, ast.Attribute) and c.func.attr == attr and norm(c) not in seen:
-                    seen.add(norm(c))
-                    out.append(c)
-    return out
-
-
-def _counter_advances(ctx: Ctx, fn: FuncInfo, line_attr: str) -> List[str]:
-    """the amounts by which fn (helpers expanded, temporaries substituted) advances the line counter, one per path"""
-    out = []
-    for p in paths_of(ctx.inl(fn)):
-        if p.kind == "raise":
-            continue
-        adv: List[str] = []
-        last = None
-        for ev in p.events:
-            if isinstance(ev, tuple) and ev[0] == "assign" and "self.%s" % line_attr in ev[1]:
-                last = ev[2]
-        if last is not None:
-            # the value finally stored, as a sum over the counter's value on entry (earlier stores are substituted into it)
-            v = last
-            while isinstance(v, ast.BinOp) and isinstance(v.op, ast.Add) and norm(v) != "self.%s" % line_attr:
-                adv.insert(0, norm(v.right))
-                v = v.left
-            if norm(v) != "self.%s" % line_attr:
-                adv = ["=" + norm(last)]
-        out.append(" + ".join(adv) if adv else "0")
-    return sorted(set(out))
-
-
-def rule_r3_r4(ctx: Ctx, a: Automaton) -> None:
-    repo = ctx.repo
-    g = a.g
-    pt = a.parser
-    ctx.rule("C17.R3", "only end_of_line consumes line breaks, or the terminal's visitor advances the counter by the breaks it matched; statements report the line they begin on", min_instances=3)
+    g = Grammar.load(ctx.repo)
+    ctx.rule("C17.R3", "only end_of_line consumes line breaks, or the terminal's visitor advances the counter by the breaks it matched; the counter starts at one", min_instances=3)
+    pm = ParserModel(ctx, g)
     multi = _multiline_terminals(g)
     ctx.analysed["C17.R3.multiline_terminals"] = multi
-    sanctioned_writers: Set[str] = set()
     seen_eol = False
+
+    def line_of(me: Any, hook: Any) -> Any:
+        return Folder({"p": me}, ctx.repo, pm.pt.module, pm.pt, hook).fold(ast.parse("p.current_line_number", mode="eval").body)
+
     for owner, pat in multi:
         if owner == "end_of_line":
             alpha = list("a\r\n ") + [rx.OTHER]
             same, x, y = rx.equivalent(rx.compile_dfa(pat, alpha, "fullmatch"), rx.compile_dfa(r"\r?\n", alpha, "fullmatch"))
             ctx.check(same, "grammar.end_of_line", pat, "end_of_line matches exactly one line break", g.path, {"extra": x, "missing": y})
             seen_eol = True
-            continue
-        vis = pt.methods.get("visit_" + owner)
-        good = False
-        if vis is not None and len(vis.params) >= 2:
-            node_param = vis.params[1]
-            adv = _counter_advances(ctx, vis, a.pl.line_attr)
-            if adv == ["%s.text.count('\\n')" % node_param]:
-                good = True
-                sanctioned_writers.add(vis.name)
-        ctx.check(good, "grammar." + owner, pat, "a terminal that can match line breaks must advance the line counter by the number of breaks it matched", "%s:%d" % (g.path, g.lines.get(owner, 0)), {"visitor": vis.short if vis else None})
+        # texts of the terminal's language with k line breaks
+        samples = {"end_of_line": [("\n", 1), ("\r\n", 1)]}.get(owner)
+        if samples is None:
+            q = "'" if "'" in pat else ('"' if '"' in pat else "")
+            samples = [(q + body + q, body.count("\n")) for body in ("ab", "a\nb", "\n\n\n", "a\r\nb\n")]
+        bad = []
+        for text, k in samples:
+            me, b_, run_, hook = pm.fresh()
+
+            def lit_hook(e: ast.expr, f: Any, hook: Any = hook) -> Any:
+                if isinstance(e, ast.Call) and (dotted(e.func) or "").split(".")[-1] == "_parse_string_literal":
+                    return Sym(_kind_="String", _isa_=frozenset({"Any", "String"}))
+                return hook(e, f)
+
+            try:
+                before = line_of(me, hook)
+                pm.visit(me, lit_hook, owner, node(text), [])
+                after = line_of(me, hook)
+            except (Raised, Unfoldable) as ex:
+                raise AnalysisError("visit_%s on a node of %d line breaks: cannot evaluate: %s" % (owner, k, ex))
+            ctx.count()
+            if before != 1 and not bad:
+                bad.append({"the counter starts at": before})
+            if after - before != k:
+                bad.append({"text": text, "line breaks": k, "counter advanced by": after - before})
+        ctx.check(not bad, "grammar." + owner, pat, "a terminal that can match line breaks must advance the line counter by the number of breaks it matched (lines are numbered from one)", "%s:%d" % (g.path, g.lines.get(owner, 0)), bad[:3])
     if not seen_eol:
         raise AnalysisError("end_of_line is not among the terminals containing a line break")
-    has_multi = any(o != "end_of_line" for o, _ in multi)
-    # directive visitors report the first line of the statement
-    for m in ("visit_statement_directive_with_expression", "visit_statement_directive_without_expression"):
-        fn = pt.methods.get(m)
-        if fn is None:
-            raise AnalysisError("anchor %s missing" % m)
-        calls = _canonical_calls(ctx, fn, "on_directive")
-        good = len(calls) == 1
-        expr = ""
-        if good:
-            le = kwarg(calls[0], "line_number", 0)
-            expr = norm(le) if le is not None else ""
-            good = _is_statement_line(ctx, pt, fn, expr, multiline=has_multi)
-        ctx.check(good, fn.short, "on_directive(line_number=%s)" % expr, "a directive is attributed to the line it begins on", fn.where())
-
-    ctx.rule("C17.R4", "line counter: starts at 1, +1 per end_of_line, otherwise written only by the sanctioned multi-line terminal visitors; assertion errors carry the directive's line and the definition's path", min_instances=3)
-    init = pt.methods["__init__"]
-    inits = [norm(st.value) for st in walk_no_nested(init.node) if isinstance(st, ast.Assign) and norm(st.targets[0]) == "self.%s" % a.pl.line_attr]
-    ctx.check(inits == ["1"], pt.short + ".__init__", "line counter starts at %s" % inits, "lines are numbered from one", init.where())
-    writers: Dict[str, List[str]] = {}
-    raw_writers: Set[str] = set()
-    for name, fn in pt.methods.items():
-        if name == "__init__":
-            continue
-        if any(isinstance(st, (ast.Assign, ast.AugAssign)) and any(norm(t) == "self.%s" % a.pl.line_attr for t in (st.targets if isinstance(st, ast.Assign) else [st.target])) for st in ast.walk(fn.node)):
-            raw_writers.add(name)
-        adv = [x for x in _counter_advances(ctx, fn, a.pl.line_attr) if x != "0"]
-        if adv:
-            writers[name] = adv
-    # a private helper that writes the counter is judged through the visitors that call it (their canonical bodies contain it)
-    def callers_of(name: str) -> Set[str]:
-        return {n2 for n2, m2 in pt.methods.items() if any(isinstance(c.func, ast.Attribute) and c.func.attr == name and norm(c.func.value) == "self" for c in calls_in(m2.node, include_nested=True))}
-
-    helpers = {n for n in raw_writers if not n.startswith("visit_") and n.startswith("_")}
-    for hname in sorted(helpers):
-        cs = callers_of(hname)
-        if cs and cs <= (sanctioned_writers | {"visit_end_of_line"} | helpers):
-            writers.pop(hname, None)
-    eol = writers.get("visit_end_of_line", [])
-    others = {k: v for k, v in writers.items() if k != "visit_end_of_line" and k not in sanctioned_writers}
-    ctx.check(eol == ["1"] and not others, pt.short, "writers: %s" % {k: v for k, v in writers.items()}, "the counter advances by exactly one per end_of_line and by the matched breaks of multi-line terminals, nowhere else", pt.module.relpath, {"unexpected_writers": others})
-    from ..regions import trivial_property_expr
-
-    e = trivial_property_expr(repo, pt, "current_line_number")
-    ctx.check(e is not None and norm(e) == "self.%s" % a.pl.line_attr, pt.short + ".current_line_number", norm(e) if e is not None else "?", "the accessor returns the counter", pt.module.relpath, nontrivial=False)
-    b = a.pl.builder
-    ad = b.methods.get("_on_assert_directive")
-    if ad is None:
-        raise AnalysisError("anchor _on_assert_directive missing")
-    raises = [r for r in ast.walk(ad.node) if isinstance(r, ast.Raise) and isinstance(r.exc, ast.Call) and (dotted(r.exc.func) or "").endswith("AssertionCheckFailureError")]
-    good = len(raises) == 1
-    if good:
-        kw = {k.arg: norm(k.value) for k in raises[0].exc.keywords}  # type: ignore
-        good = kw.get("line") == ad.params[1] and kw.get("path") in ("self._definition.file_path",)
-    ctx.check(good, ad.short, "AssertionCheckFailureError(path=self._definition.file_path, line=<directive line>)", "a failed assertion names its own file and line", ad.where())
-    od = b.methods["on_directive"]
-    call_ok = any(isinstance(n, ast.Call) and norm(n.func) == "handler" and norm(n.args[0]) == od.params[1] for n in ast.walk(od.node))
-    ctx.check(call_ok, od.short, "handler(line_number, ...)", "the directive's line reaches its handler unchanged", od.where(), nontrivial=False)
-
-
-def _handler_binding(fn: FuncInfo, h: ast.AST, want_path: str) -> Optional[bool]:
-    """
-    Is the (line, text) handler expression `h`, used inside `fn`, bound to the path `want_path`?
-    True:  functools.partial(F, want_path);  a lambda / local def taking (line, text) that calls something with want_path
-           (directly, or through a parameter whose default is want_path) as the first argument.
-    False: a handler that was bound elsewhere and is merely forwarded (a parameter, an attribute of self), or one bound to
-           another path.
-    None:  not recognisable.
-    """
-    if isinstance(h, ast.Call) and dotted(h.func) == "functools.partial" and len(h.args) == 2 and not h.keywords:
-        return norm(h.args[1]) == want_path
-    if isinstance(h, ast.Call) and isinstance(h.func, ast.Name) and len(h.args) >= 1:
-        # a local factory: def make(path): def handler(line, text): user(path, line, text); return handler
-        facs = [n for n in ast.walk(fn.node) if isinstance(n, ast.FunctionDef) and n.name == h.func.id and n is not fn.node]
-        if len(facs) == 1:
-            fac = facs[0]
-            fparams = [x.arg for x in fac.args.posonlyargs + fac.args.args]
-            rets = [r.value for r in ast.walk(fac) if isinstance(r, ast.Return) and r.value is not None]
-            inner: Optional[ast.AST] = None
-            if len(rets) == 1:
-                if isinstance(rets[0], ast.Lambda):
-                    inner = rets[0]
-                elif isinstance(rets[0], ast.Name):
-                    ds = [n for n in ast.walk(fac) if isinstance(n, ast.FunctionDef) and n.name == rets[0].id and n is not fac]
-                    inner = ds[0] if len(ds) == 1 else None
-            if inner is not None and fparams:
-                ia = inner.args  # type: ignore
-                free = [x.arg for x in ia.posonlyargs + ia.args][: len(ia.posonlyargs + ia.args) - len(ia.defaults)]
-                body = inner.body if isinstance(inner.body, list) else [inner.body]  # type: ignore
-                firsts = [norm(c.args[0]) for st in body for c in ast.walk(st) if isinstance(c, ast.Call) and len(c.args) == 3 and [norm(x) for x in c.args[1:]] == free]
-                if len(free) == 2 and firsts:
-                    bound = dict(zip(fparams, [norm(x) for x in h.args]))
-                    return all(bound.get(f0) == want_path for f0 in firsts)
-        return None
-    target: Optional[ast.AST] = None
-    if isinstance(h, ast.Lambda):
-        target = h
-    elif isinstance(h, ast.Name):
-        defs = [n for n in ast.walk(fn.node) if isinstance(n, ast.FunctionDef) and n.name == h.id and n is not fn.node]
-        if len(defs) == 1:
-            target = defs[0]
-        elif not defs:
-            return False  # a parameter / outer variable: bound by somebody else, to somebody else's file
-        else:
-            return None
-    elif isinstance(h, ast.Attribute):
-        return False  # e.g. self._print_output_handler: already bound to the file this builder works on
-    if target is None:
-        return None
-    a = target.args  # type: ignore
-    pos = [x.arg for x in a.posonlyargs + a.args]
-    defaults = dict(zip(reversed(pos), reversed([norm(d) for d in a.defaults])))
-    free = [x for x in pos if x not in defaults]
-    if len(free) != 2:
-        return None
-    body = target.body if isinstance(target.body, list) else [target.body]  # type: ignore
-    firsts = []
-    for st in body:
-        for c in ast.walk(st):
-            if isinstance(c, ast.Call) and len(c.args) == 3 and [norm(x) for x in c.args[1:]] == free:
-                f0 = norm(c.args[0])
-                firsts.append(defaults.get(f0, f0))
-    if not firsts:
-        return None
-    return all(f == want_path for f in firsts)
 
 
 def rule_r5_r6(ctx: Ctx) -> None:
-    repo = ctx.repo
+    """print delivery observed on the reader model (reader_common) and the document model (parser_common)"""
+    from ..absint import Recorder
+    from . import reader_common as R
+
     ctx.rule("C17.R5", "the print handler passed to X.read(...) is bound to X's own file path", min_instances=2)
-    # every call of `.read(` with a print handler argument
-    n = 0
-    for fn in repo.all_functions().values():
-        if fn.module.name.startswith("pydsdl._serdes"):
-            continue
-        for c in calls_in(fn.node):
-            if not (isinstance(c.func, ast.Attribute) and c.func.attr == "read"):
-                continue
-            h = kwarg(c, "print_output_handler", 2)
-            if h is None:
-                continue
-            n += 1
-            recv = norm(c.func.value)
-            why = norm(h)
-            verdict = _handler_binding(fn, h, "%s.file_path" % recv)
-            if verdict is None:
-                raise AnalysisError("C17.R5: %s: cannot tell which path the print handler %s is bound to" % (fn.qualname, why))
-            ctx.check(verdict, fn.short, "%s.read(print_output_handler=%s)" % (recv, why), "a dependency read on demand must deliver its @print output with the dependency's own path, not the referrer's", fn.where(c))
-    if n < 2:
-        raise AnalysisError("C17.R5: expected at least the two read() call sites that forward a print handler, found %d" % n)
-    ctx.rule("C17.R6", "@print invokes the handler exactly once per evaluated directive, with the directive's line", min_instances=1)
-    b = ctx.cls("_data_type_builder.DataTypeBuilder")
-    pd = b.methods.get("_on_print_directive")
-    if pd is None:
-        raise AnalysisError("anchor _on_print_directive missing")
+    # (a) the namespace reader: every definition it reads gets a handler that delivers with that definition's own path
+    w = R.World()
+    C = R.ADef(w, "ns.C", 1, 0)
+    Bd = R.ADef(w, "ns.B", 1, 0, deps=[C])
+    A = R.ADef(w, "ns.A", 1, 1, deps=[Bd])
+    X = R.ADef(w, "other.X", 1, 0)
+    user = Recorder("user-print-handler")
+    out = R.run_reader(ctx, [A, X], [A, Bd, C, X], handler=user)
+    if out["raised"]:
+        raise AnalysisError("read_definitions over the abstract world raised %s" % out["raised"])
+    nsr = ctx.func("_namespace_reader.read_definitions")
     bad = []
-    for p in paths_of(pd.node):
-        if p.kind == "raise":
+    ext = w.__dict__.get("external_reads", [])
+    for d, h in ext:
+        del user.log[:]
+        if h is None:
+            bad.append({"definition": d.label, "handler": None})
             continue
-        calls = [ev for ev in p.events if isinstance(ev, ast.Call) and norm(ev.func) == "self._print_output_handler"]
-        if len(calls) != 1 or norm(calls[0].args[0]) != pd.params[1]:
-            bad.append({"path": repr(p)[:100], "calls": [norm(c) for c in calls]})
-    ctx.check(not bad, pd.short, "one handler call per path, first argument = the directive's line", "each evaluated @print is delivered exactly once", pd.where(), bad)
-    nsr = ctx.func("_namespace_reader._read_definitions")
-    # the wrapper around the user's handler: the one local function (at any nesting) that calls it; it forwards (file, line,
-    # message) once, the line and message being its own last two parameters and the file a parameter of it or of its factory
-    user = next((p_ for p_ in nsr.params if "print" in p_ and "handler" in p_), None)
-    if user is None:
-        raise AnalysisError("_read_definitions: the user's print handler parameter was not found")
-    wrappers = []
-    for n in ast.walk(nsr.node):
-        if isinstance(n, (ast.FunctionDef, ast.Lambda)) and n is not nsr.node:
-            own_calls = [c for c in _calls_not_in_nested(n) if norm(c.func) == user]
-            if own_calls:
-                wrappers.append((n, own_calls))
-    good = len(wrappers) == 1
-    if good:
-        w, cs = wrappers[0]
-        params = [x.arg for x in w.args.posonlyargs + w.args.args]
-        outer_params = {x.arg for f2 in ast.walk(nsr.node) if isinstance(f2, ast.FunctionDef) and f2 is not nsr.node and any(y is w for y in ast.walk(f2)) for x in f2.args.posonlyargs + f2.args.args}
-        good = len(cs) == 1 and len(cs[0].args) == 3 and not cs[0].keywords and len(params) >= 2 and [norm(x) for x in cs[0].args[1:]] == params[-2:] and norm(cs[0].args[0]) in (set(params[:-2]) | outer_params)
-    ctx.check(good, nsr.short + " (print wrapper)", "forwards (file, line, message) once", "the wrapper forwards each message once, unchanged", nsr.where(), nontrivial=False)
+        try:
+            from ..fold import Folder as _F, call_value as _cv
+
+            _cv(_F({}, ctx.repo, nsr.module, None, R._hook(ctx, nsr.module, [])), h, [41, "probe"])
+        except Exception as ex:  # the handler is a value of the evaluated program
+            raise AnalysisError("the print handler given to %s.read cannot be evaluated: %s" % (d.label, ex))
+        got = [(str(a[0]), a[1], a[2]) for _, a, _ in user.log]
+        ctx.count()
+        if got != [(str(d.file_path), 41, "probe")]:
+            bad.append({"definition read": d.label, "a print on line 41 is delivered as": got, "expected": [(str(d.file_path), 41, "probe")]})
+    if len(ext) < 2:
+        raise AnalysisError("the namespace reader read %d definitions of the abstract world, expected at least the two targets" % len(ext))
+    ctx.check(not bad, nsr.short, "every definition read by the namespace reader prints under its own path (%d reads)" % len(ext), "a print is delivered once, with the path of the file being read, the directive's line and text", nsr.where(), bad[:3])
+    # without a user handler nothing is delivered and nothing fails
+    w2 = R.World()
+    A2 = R.ADef(w2, "ns.A", 1, 0)
+    A2.__dict__["prints"] = True
+    o2 = R.run_reader(ctx, [A2], [A2], handler=None)
+    ctx.check(o2["raised"] is None, nsr.short, "no user handler: prints are dropped", "print output is optional", nsr.where(), o2["raised"], nontrivial=False)
+    # (b) a dependency read on demand by the builder
+    rv = ctx.func("_data_type_builder.DataTypeBuilder.resolve_versioned_data_type")
+    w3 = R.World()
+    A3 = R.ADef(w3, "ns.A", 1, 0)
+    B3 = R.ADef(w3, "ns.B", 1, 0)
+    o3 = R.resolve(ctx, A3, [A3, B3], "ns.B", 1, 0)
+    if o3["raised"]:
+        raise AnalysisError("resolve_versioned_data_type over the abstract world raised %s" % o3["raised"])
+    reads = [e for e in w3.log if e[0] == "read" and e[1] is B3]
+    ctx.count()
+    own = bool(reads) and all(e[4] is not o3["handler"] for e in reads)
+    ctx.check(own, rv.short, "target_definition.read(print_output_handler=self._print_output_handler)", "a dependency read on demand must deliver its @print output with the dependency's own path, not the referrer's", rv.where(), "the dependency is read with the referring definition's own (line, text) handler, which is bound to the referrer's path")
+
+    ctx.rule("C17.R6", "@print invokes the handler exactly once per evaluated directive, with the directive's line", min_instances=1)
+    from .parser_common import Line, ParserModel, parse_lines
+
+    pm = ParserModel(ctx)
+    bad = []
+    for prefix in ([], [Line("B")], [Line("C", comment=" c"), Line("W")], [Line("F", "a"), Line("C", comment=" d"), Line("B")]):
+        for pr in (Line("X", directive="print", value=("Rational", 7)), Line("D", directive="print")):
+            lines = [Line("D")] + prefix + [pr, Line("F", "z")]
+            r = parse_lines(pm, lines, True)
+            ctx.count()
+            want_line = len(prefix) + 2
+            if r.raised or [a[0] for a in r.prints] != [want_line]:
+                bad.append({"text": "\n".join(repr(l) for l in lines), "delivered": r.prints, "raised": r.raised, "expected line": want_line})
+    pd = ctx.cls("_data_type_builder.DataTypeBuilder")
+    ctx.check(not bad, pd.short, "one delivery per @print, with the directive's own line", "each evaluated @print is delivered exactly once", pd.module.relpath, bad[:3])
 
 
-def _calls_not_in_nested(fn: ast.AST) -> List[ast.Call]:
-    out: List[ast.Call] = []
-    stack = list(ast.iter_child_nodes(fn))
-    while stack:
-        n = stack.pop()
-        if isinstance(n, (ast.FunctionDef, ast.Lambda)):
-            continue
-        if isinstance(n, ast.Call):
-            out.append(n)
-        stack.extend(ast.iter_child_nodes(n))
-    return out
+def rule_r8(ctx: Ctx) -> None:
+    """where faults are reported: the repository's parse() evaluated over abstract texts with a fault planted in one statement"""
+    from .parser_common import Line, ParserModel, parse_lines, text_of
+
+    ctx.rule("C17.R8", "a fault is reported at the line of the statement it lies in - also when the statement is committed lazily several lines further down, when it follows blank / comment lines or a multi-line string literal, and however the text ends", min_instances=3)
+    pm = ParserModel(ctx)
+    prefixes = [[], [Line("B")], [Line("C", comment=" c")], [Line("W"), Line("B")], [Line("F", "ok")], [Line("F", "ok", comment=" t"), Line("C", comment=" d")], [Line("X", directive="print", value=("String", "two\nlines"))]]
+    suffixes = [[], [Line("C", comment=" doc")], [Line("C", comment=" doc"), Line("C", comment=" more")], [Line("B")], [Line("W")], [Line("C", comment=" doc"), Line("B"), Line("B")], [Line("F", "next")], [Line("D", directive="print")], [Line("B"), Line("B"), Line("K", "later")]]
+    bad_lazy, bad_now = [], []
+    n = 0
+    for pre in prefixes:
+        extra = sum(repr(l).count("\n") for l in pre)  # physical lines taken by multi-line statements
+        for kind in ("F", "K"):
+            for suf in suffixes:
+                for final_eol in (False, True):
+                    lines = [Line("D")] + pre + [Line(kind, "bad")] + suf
+                    r = parse_lines(pm, lines, final_eol, faulty=["bad"])
+                    n += 1
+                    ctx.count()
+                    want = 1 + len(pre) + extra + 1
+                    if r.raised != "InvalidConstantValueError" or getattr(r, "error_line", None) != want:
+                        bad_lazy.append({"text": text_of(lines, final_eol), "fault in": "the attribute `bad` on line %d" % want, "reported": "%s at line %s" % (r.raised, getattr(r, "error_line", None))})
+        # faults raised while the statement itself is being visited
+        for lines, cls_name in (([Line("D")] + pre + [Line("X", directive="assert", value=("Boolean", False))], "AssertionCheckFailureError"), ([Line("D")] + pre + [Line("D", directive="bogus")], "InvalidDirectiveError"), ([Line("D")] + pre + [Line("D", directive="sealed")], "InvalidDirectiveError")):
+            r = parse_lines(pm, lines, True)
+            ctx.count()
+            want = 1 + len(pre) + extra + 1
+            if r.raised != cls_name or getattr(r, "error_line", None) != want:
+                bad_now.append({"text": text_of(lines, True), "fault on line": want, "reported": "%s at line %s" % (r.raised, getattr(r, "error_line", None))})
+    ctx.check(not bad_lazy, "_parser.parse x _data_type_builder.DataTypeBuilder", "faulty attribute committed later: %d abstract texts" % n, "an error raised by the lazily committed attribute must carry the attribute's own line, not the line reached by the parser", "pydsdl/_parser.py", bad_lazy[:3])
+    ctx.check(not bad_now, "_parser.parse x _data_type_builder.DataTypeBuilder", "faulty directive: reported on its own line", "a fault met while a statement is evaluated is attributed to the line the statement begins on", "pydsdl/_parser.py", bad_now[:3])
+    # the failed assertion also names the definition's file
+    r = parse_lines(pm, [Line("D"), Line("X", directive="assert", value=("Boolean", False))], True)
+    ctx.check(r.raised == "AssertionCheckFailureError" and str(getattr(r, "error_path", None)) == "/root/ns/sub/T.1.2.dsdl", "_data_type_builder.DataTypeBuilder", "a failed assertion names its own file and line", "the assertion error carries the path of the definition being built", "pydsdl/_data_type_builder.py", str(getattr(r, "error_path", None)), nontrivial=False)
 
 
 def run(ctx: Ctx) -> None:
-    a = Automaton(ctx)
-    a.explore()
-    ctx.analysed["automaton"] = {"states": len(a.states_seen), "transitions": a.transitions, "commit_executions": len(a.commits)}
     ctx.attempt(rule_r1, ctx)
     ctx.attempt(rule_r7, ctx)
-    ctx.attempt(rule_r2, ctx, a)
-    ctx.attempt(rule_r3_r4, ctx, a)
+    ctx.attempt(rule_r8, ctx)
     ctx.attempt(rule_r5_r6, ctx)
+    ctx.attempt(rule_r3, ctx)
     ctx.assume("a definition is evaluated once (result cached, C09.R4), so each @print is met once")
     ctx.assume("errors raised while a statement is still being evaluated are stamped with the parser's current line, which lies within the statement")
